@@ -168,11 +168,29 @@ SHADOW.update({
 })
 
 
+def _wrap_bool(cls):
+    orig = cls.__dict__["__bool__"]
+
+    def __bool__(self):
+        r = orig(self)
+        if _isinstance(r, (SymBool, SymInt)):
+            return builtins.bool(r)          # fork point
+        return r
+    __bool__.__wrapped__ = orig
+    cls.__bool__ = __bool__
+
+
 class _Loader(importlib.machinery.SourceFileLoader):
     def exec_module(self, module):
         code = self.get_code(module.__name__)
         module.__dict__["__builtins__"] = SHADOW
         exec(code, module.__dict__)
+        # CPython insists that __bool__ returns a real bool.  A repository class whose __bool__ returns a stored value
+        # (ValueBool.__bool__ returns self.v) would make that check fail on a symbolic value, so the *protocol adapter* below
+        # forks on the symbolic result; the method body itself is the repository's.
+        for obj in list(module.__dict__.values()):
+            if _isinstance(obj, type) and obj.__module__ == module.__name__ and "__bool__" in obj.__dict__:
+                _wrap_bool(obj)
 
 
 class _Finder(importlib.abc.MetaPathFinder):
